@@ -18,7 +18,7 @@ import tables
 from tables import TranslatorError
 
 OUT_NAME = "T_C15.v"
-DIRS = ["visit", "core/writers", "emitters", "emit", "helpers", "generator", "context"]
+DIRS = ["visit", "core/writers", "emitters", "emit", "helpers", "generator", "context", "types"]
 TEXT_WORDS = ("desc", "summary", "title", "default")
 LOG_FUNCS = {"debug", "info", "warning", "error", "exception", "critical", "warn"}
 
@@ -77,6 +77,11 @@ KNOWN: dict[tuple[str, str, str], int] = {
     ("visit/model/dataclass_generator.py", "_generate_typed_wrapper_class", '__all__ = ["{class_name}"]\n\n@dataclass\nclass {class_name}:\n    """\n    {description}\n\n    Thi'): 11,
     ("visit/model/dataclass_generator.py", "generate", "{field_doc} (maps from '{prop_name}')"): 10,   # feeds the field comment (10) and DocumentationWriter (12)
     ("visit/model/dataclass_generator.py", "generate", "Maps from '{prop_name}'"): 10,
+    ("visit/model/dataclass_generator.py", "generate", "Maps from '{api_name}'"): 10,     # renamed field (trailing underscore): same composition
+    # range-aware raise helper: {error_class} from a literal tuple, {message} a literal of the two callers - the scan
+    # below verifies that every caller passes a plain string constant
+    ("visit/endpoint/generators/response_handler_generator.py", "_write_range_aware_raise", 'raise {error_class}(response=response, message="{message}", status_code=response.status_code)'): 0,
+    ("visit/endpoint/generators/response_handler_generator.py", "_write_range_aware_raise", 'raise HTTPError(response=response, message="{message}", status_code=response.status_code)'): 0,
     ("visit/model/dataclass_generator.py", "_get_field_default", "'\"' + {escaped_inner_content} + '\"'"): 8,
     # every use of `.default` (any rendering of a default into code needs a model; branch structure of _get_field_default:
     #  array -> default_factory, anonymous object -> default_factory, named enum -> 17, str -> 8 for EVERY declared type,
@@ -110,6 +115,16 @@ KNOWN: dict[tuple[str, str, str], int] = {
     (U, "generate_url_and_args", "escaper: writer.write_line(f'    **({{\"Content-Type\": {raw_content_type!r}}} if bytes_content is not None else {{}}),')"): 20,
     (U, "generate_url_and_args", '    **({"Content-Type": {raw_content_type!r}} if bytes_content is not None else {}),'): 20,
     ("core/writers/code_writer.py", "python_string_literal", "'\"' + {value.encode('unicode_escape').decode('ascii').replace('\"', '\\\\\"')} + '\"'"): 5,   # the escaper of sites 5-7 itself (Escape.ascii_lit)
+    # ---- types/: forward-reference quoting of TYPE EXPRESSIONS built from sanitised class names (property C20), log text
+    ("types/resolvers/schema_resolver.py", "_resolve_array", '"{item_type_str}"'): 0,
+    ("types/resolvers/schema_resolver.py", "_resolve_any_of", '"{sub_type_str}"'): 0,
+    ("types/resolvers/schema_resolver.py", "_resolve_one_of", '"{sub_type_str}"'): 0,
+    ("types/resolvers/schema_resolver.py", "_resolve_string", "name='{schema.name}'"): 0,                 # part of a log message
+    ("types/resolvers/schema_resolver.py", "resolve_schema", "Unknown schema type '{schema_type}' encountered."): 0,   # log message
+    ("types/resolvers/schema_resolver.py", "resolve_schema", " Schema name: '{schema_details['name']}'."): 0,
+    ("types/resolvers/schema_resolver.py", "resolve_schema", " Reference: '{schema_details['ref']}'."): 0,
+    ("types/services/type_service.py", "_format_resolved_type", '"{python_type} | None"'): 0,               # whole annotation quoted (forward reference)
+    ("types/services/type_service.py", "_format_resolved_type", '"{python_type}"'): 0,
     # ---- docstring sites escaped with documentation_writer.escape_docstring_text
     ("visit/client_visitor.py", "_generate_client_implementation", "escaper: docstring_lines.append(escape_docstring_text(f'{spec.title} (version {spec.version})'))"): 15,
     ("visit/client_visitor.py", "_generate_client_implementation", "escaper: writer.write_line(f"): 13,
@@ -219,6 +234,15 @@ def scan(src_root: Path) -> tuple[list[tuple[str, int, str, str]], list[tuple[st
                                and c.func.attr == "write_line" and len(c.args) == 1 and isinstance(c.args[0], ast.Constant)
                                and c.args[0].value == '"""')
                 regions[fn.name] = [(marks[i], marks[i + 1]) for i in range(0, len(marks) - 1, 2)]
+
+        # callers of the range-aware raise helper must pass a generator constant as the message (it is put between quotes)
+        for node in ast.walk(mod):
+            if isinstance(node, ast.Call) and isinstance(node.func, ast.Attribute) and node.func.attr == "_write_range_aware_raise":
+                msg = node.args[2] if len(node.args) >= 3 else next((k.value for k in node.keywords if k.arg == "message"), None)
+                if not (isinstance(msg, ast.Constant) and isinstance(msg.value, str)
+                        and all(ch.isalnum() or ch in " .,-_" for ch in msg.value)):
+                    raise TranslatorError(f"C15 site inventory: {rel}:{node.lineno}: _write_range_aware_raise is called with a message "
+                                          "that is not a plain string constant (it is interpolated between quotes)")
 
         # ANY use of a schema's `.default` outside a condition is a candidate: the value may be rendered into code
         for node in ast.walk(mod):
